@@ -16,7 +16,8 @@ type Knobs map[string]bool
 // AllKnobs in a fixed order (documentation in CONTRACT.md).  This list is FROZEN: the laboratories built on
 // fedlab (C07e, C08e, C09, C10, C14) use "all" / KnobsAll with fixed seeds and keep corpora keyed by
 // (seed, index), so "all" must keep meaning exactly this set and a knob that is off must not consume a
-// single random draw.  Later knobs go to ExtraKnobs and are opted into with "all2" / KnobsAllV2.
+// single random draw.  Later knobs go to ExtraKnobs and are opted into with "all2" / KnobsAllV2 (the first two, frozen
+// as well) or "all3" / KnobsAllV3 (all of them).
 var AllKnobs = []string{
 	// configuration
 	"sub3",      // 3-4 subgraphs instead of 2
@@ -48,10 +49,18 @@ var ExtraKnobs = []string{
 	// every interface declares an entity hop whose entity has a leaf in another subgraph; operations select the hop
 	// under several type-condition scopes of the abstract parent; lists hold every implementer (needs interfaces)
 	"scopedhops",
+	// fields of type [[T]] / [[[T]]] in every nullability combination, T an entity (with fields in other subgraphs:
+	// entity fetches below a list of lists), value / local type, interface, union or scalar; universes with null and
+	// empty inner lists and entities repeated across inner lists (gen_nest.go, gen_op_nest.go).  NOT part of "all2".
+	"nestedlists",
 }
 
-// AllKnobsV2 = AllKnobs followed by ExtraKnobs.
-var AllKnobsV2 = append(append([]string(nil), AllKnobs...), ExtraKnobs...)
+// AllKnobsV2 = AllKnobs followed by the first two ExtraKnobs.  FROZEN like AllKnobs: C09's family `genh`
+// (harness/c09lab/families.go) draws from KnobsAllV2() with fixed seeds.
+var AllKnobsV2 = append(append([]string(nil), AllKnobs...), ExtraKnobs[:2]...)
+
+// AllKnobsV3 = AllKnobs followed by all ExtraKnobs ("all3"; C01 and its plan-validation part use it).
+var AllKnobsV3 = append(append([]string(nil), AllKnobs...), ExtraKnobs...)
 
 func KnobsAll() Knobs {
 	k := Knobs{}
@@ -61,17 +70,26 @@ func KnobsAll() Knobs {
 	return k
 }
 
-// KnobsAllV2: every knob including ExtraKnobs.
+// KnobsAllV2: the frozen AllKnobsV2 (AllKnobs + covariant + scopedhops).
 func KnobsAllV2() Knobs {
-	k := KnobsAll()
-	for _, n := range ExtraKnobs {
+	k := Knobs{}
+	for _, n := range AllKnobsV2 {
 		k[n] = true
 	}
 	return k
 }
 
-// ParseKnobs: "all" (the frozen AllKnobs), "all2" (AllKnobsV2), "none", or a comma list of knob names,
-// "all" / "all2" and "-name" removals; a list starting with a removal starts from "all".
+// KnobsAllV3: every knob including all ExtraKnobs.
+func KnobsAllV3() Knobs {
+	k := Knobs{}
+	for _, n := range AllKnobsV3 {
+		k[n] = true
+	}
+	return k
+}
+
+// ParseKnobs: "all" (the frozen AllKnobs), "all2" (the frozen AllKnobsV2), "all3" (AllKnobsV3), "none", or a comma
+// list of knob names, "all" / "all2" / "all3" and "-name" removals; a list starting with a removal starts from "all".
 func ParseKnobs(s string) Knobs {
 	s = strings.TrimSpace(s)
 	if s == "" || s == "all" {
@@ -96,6 +114,10 @@ func ParseKnobs(s string) Knobs {
 			for n := range KnobsAllV2() {
 				k[n] = true
 			}
+		case p == "all3":
+			for n := range KnobsAllV3() {
+				k[n] = true
+			}
 		case strings.HasPrefix(p, "-"):
 			delete(k, p[1:])
 		case p != "":
@@ -107,7 +129,7 @@ func ParseKnobs(s string) Knobs {
 
 func (k Knobs) String() string {
 	var on []string
-	for _, n := range AllKnobsV2 {
+	for _, n := range AllKnobsV3 {
 		if k[n] {
 			on = append(on, n)
 		}
@@ -697,6 +719,10 @@ func GenConfig(r *common.Rand, k Knobs) *Config {
 			query.Fields = append(query.Fields, fd)
 			g.rootOwner(fd.Name, s)
 		}
+	}
+
+	if k["nestedlists"] {
+		g.addNestedLists(query)
 	}
 
 	// --- G: requires / provides
